@@ -63,6 +63,9 @@ def curated(tier):
         add("regge", cell)
         add("regge", cell, p={"family": "HHJ"})
         add("quadrature_element_vec", cell)
+    for kind in ("J", "Y"):
+        add("bessel", "triangle", p={"kind": kind, "nu": 1})
+        add("bessel", "tetrahedron", p={"kind": kind, "nu": 0})
     add("manifold_mass", "triangle", gdim=3)
     add("manifold_mass", "interval", gdim=2, cdeg=2)
     add("manifold_mass", "interval", gdim=3)
